@@ -737,6 +737,8 @@ def check_routes(ctx, prop):
     if prop == 'C06':
         object_equalities(rep, [(e, p, v) for e, p, v, _ in bundles])
     if prop == 'C17':
+        shared_evaluation(ctx, rep)
+    if prop == 'C17':
         # the same questions on USED objects that share leaves and sub-expressions with other expressions (a constructor
         # that edits an operand's variable-name set in place surfaces as a bare Exception from a later bare-number call)
         import props2
@@ -998,6 +1000,7 @@ def check_C08(ctx):
     exprs = [gen.in_context(rng, p, [2, 3]) for p in pats]
     exprs += expr_pool(rng, sizes(tier, 250, 5000), max_size=14, with_patterns=False)
     exprs += folded_constant_cases(rng, sizes(tier, 40, 600))
+    exprs += gen.repairable_singular(rng, [2, 3], sizes(tier, 60, 800))
     pre = ['SYNFWD 2 %s' % sx.to_sx(e) for e in exprs[:sizes(tier, 150, 2000)] if sx.size(e) <= 7]
     for s in core.run_model(pre):
         try:
